@@ -230,6 +230,8 @@ func cmdCheck(args []string) int {
 			var stdout, stderr bytes.Buffer
 			cmd.Stdout = &stdout
 			cmd.Stderr = &stderr
+			raceLog := filepath.Join(scratch, fmt.Sprintf("race-%d", i))
+			cmd.Env = append(os.Environ(), "GORACE=halt_on_error=0 log_path="+raceLog, "VERIF_RACE_LOG="+raceLog)
 			// watchdog: a worker that overruns its budget massively is an infrastructure failure
 			done := make(chan error, 1)
 			if err := cmd.Start(); err != nil {
